@@ -23,7 +23,8 @@ EXPLANATION = (
     'position with their own extra arguments (term identity); otherwise SystemExit(2). Through the real Solver(argv) with a non-existent '
     'instance file: refusal (SystemExit 2) happens before the file is opened, acceptance reaches the open (FileNotFoundError); -stab without '
     '-twopl is refused. Downstream, E2 runs with gapped/shuffled command lines check that the "- optimisation:" info lines and the recorded '
-    'solve sequence follow position order.')
+    'solve sequence follow position order, and (optimality obligation of C03 on command lines with explicit extras, including zeros) that each criterion '
+    'runs with exactly the extra arguments it was given.')
 ASSUMPTIONS = ['argparse (stdlib) is executed, not modelled', 'list indexing by a symbolic position forks over every feasible value (no silent concretisation)']
 LEVEL_TEXT = ('Path-exhaustive symbolic execution of the real option parser with unbounded symbolic positions/extras; per-path claims discharged by z3; '
               'presence subsets bounded (quick <= 2 present, thorough <= 3).')
@@ -64,6 +65,16 @@ def tasks(tier, seed):
             out.append({'kind': 'parse', 'present': list(sub3), 'nextra': [0, 0, 0], 'perm': [2, 0, 1], 'entry': 'parse'})
     for stab, twopl in itertools.product([False, True], repeat=2):
         out.append({'kind': 'stab', 'stab': stab, 'twopl': twopl})
+    # extras are honoured downstream: the criterion runs with exactly the given extra arguments (incl. explicit zeros)
+    two = [s for s in shapes.corner_shapes() if s.lprefs is not None and s.ns >= 2]
+    EX = [[('mincost', [0, 1])], [('minsqcost', [0, 1])], [('mincostlsb', [1, 0])], [('mincostlsb', [0, 1])], [('mincost', [2, 0])],
+          [('gre', [1])], [('gen', [2])], [('maxsize', []), ('mincost', [0, 1])]]
+    for i in range(16 if tier == 'quick' else 64):
+        I = two[i % len(two)]
+        seq = EX[i % len(EX)]
+        if lpchecks.admissible(I, seq):
+            out.append({'kind': 'extras', 'prop': ID, 'shape': lpchecks.shape_data(I), 'flags': ['twopl'], 'seq': seq,
+                        'argv_seq': lpchecks.gapped_argv(seq, rng), 'forms': ['opt'], 'wf': True})
     # downstream order
     shs = shapes.corner_shapes()
     n = 60 if tier == 'quick' else 240
@@ -91,6 +102,8 @@ def run_task(task):
            'paths': 0, 'nontrivial': 0, 'controls': {}}
     if task['kind'] == 'order':
         return run_order(task, res)
+    if task['kind'] == 'extras':
+        return lpchecks.analyse(task)
     ns = repo.load('real')
     ns.options_parser.int = S.sym_int
     if task['kind'] == 'stab':
@@ -244,6 +257,8 @@ def run_order(task, res):
 def replay(cex):
     d = cex['data']
     ns = repo.load('real')
+    if cex.get('form') == 'opt':
+        return lpchecks.replay_cex(cex)
     if 'shape' in d:
         from .. import replay as rp, spec
         I = lpchecks.shape_from(d['shape'])
@@ -280,7 +295,7 @@ def describe_task(t):
 
 
 def task_cost(t):
-    return 9 ** len(t.get('present', [])) if t['kind'] == 'parse' else 5
+    return 9 ** len(t.get('present', [])) if t['kind'] == 'parse' else 50
 
 
 if __name__ == '__main__':
